@@ -170,6 +170,10 @@ class InputDataStorage:
             else:
                 vals = l.strip().split(':')
                 files = vals[0].split()
+                if self.input_type == "bam" and len(files) > 1:
+                    # only the first file of a library is ever opened for BAM input: the others would be ignored silently
+                    logger.critical("Several BAM files in one line (%s): put every BAM file on its own line" % vals[0])
+                    exit(-2)
                 if len(vals) > 1:
                     readable_name = vals[-1]
                 else:
